@@ -65,6 +65,20 @@ def cases(tier, seed):
                     kern.append(["public.kern1.O", "public.kern2.A", -37 * 4])
             out[-1].update({"varFeatures": True, "prodNames": False, "kern2": k % 8 == 7})
     out += vfs_cases(random.Random(seed * 373587883 + 100010), 4 if tier == "quick" else 40, f"c10-{seed}")
+    # kerning groups need not be the same in every master: a group (and a class pair using it) that only a NON-default master
+    # defines still kerns at that master's location
+    rng3 = random.Random(seed * 373587883 + 100011)
+    for k in range(4 if tier == "quick" else 40):
+        fam = gen.rich_family(rng3, n_masters=2 + k % 2)
+        cand = [m for m in fam["masters"] if m["loc"]["Weight"] != 400 and m["ufo"].get("kerning")]
+        if cand:
+            m_ = cand[k % len(cand)]
+            side1 = k % 2 == 0
+            gname = "public.kern1.Vx" if side1 else "public.kern2.Vx"
+            m_["ufo"].setdefault("groups", []).append([gname, ["V", "one"]])
+            m_["ufo"]["kerning"].append([gname, "a", -33 * 4] if side1 else ["a", gname, -33 * 4])
+        out.append({"cid": f"c10-{seed}-g{k}", "lib": rng3.choice(["ufoLib2", "defcon"]), "fam": fam, "flavor": "tt" if k % 2 else "cff2",
+                    "varFeatures": True, "prodNames": False, "kern2": k % 4 == 3})
     return out
 
 
